@@ -522,7 +522,6 @@ def _check_abs(ctx: Ctx, pr: FunctionInfo, prs: FunctionInfo, ctor: ast.Call, si
                     out.append(eff)
         return out
 
-    session_h = repo.const_str(prs.module, ast.Name(id="SESSION_HEADER", ctx=ast.Load()))
     results = []  # (init, script, headers, expected, {model: got})
     for resumed in (False, True):
         for sc in scripts(resumed):
